@@ -197,6 +197,20 @@ def check(ctx: Ctx) -> list[RuleResult]:
         r3.ok({"lifespan_rows": n_rows, "types": "timedelta | False | None"})
     else:
         r3.fail("CODES_SCHEMA:lifespan-rows", repo.mod("ramses_tx.ramses").rel, f"lifespan rows not foldable to timedelta|False|None: {badrows[:4]} ({n_rows} rows)")
+    # expiry is judged against a clock that only moves forward with real (or replayed) time: the engine's `now` is its transport's
+    # clock, else the wall clock - never the timestamp of a message it happens to hold (a `now` that lags behind - "the last message
+    # handled" - makes expired packets look fresh again for as long as nothing newer becomes a message)
+    r3.instances += 1
+    r3.nontrivial += 1
+    edn = repo.func("ramses_tx.gateway.Engine._dt_now")
+    rets_e = [n.value for n in own_nodes(edn.node) if isinstance(n, ast.Return) and n.value is not None]
+    lagging = [rv for rv in rets_e if any(isinstance(x, ast.Attribute) and x.attr in ("dtm", "_dtm") for x in ast.walk(rv))]
+    if not rets_e:
+        raise AnalysisError("Engine._dt_now: no return found")
+    if lagging:
+        r3.fail(f"{edn.short}:now-from-a-message", edn.loc(), f"Engine._dt_now can answer with a message's own timestamp (`{norm(lagging[0])[:50]}`): the expiry of every other message is then judged against a clock that stands still while no new message arrives, so expired packets are reported (and snapshotted) as live")
+    else:
+        r3.ok({"Engine._dt_now": [norm(rv)[:60] for rv in rets_e]})
     # "each message has a lifetime fixed by its kind": the lifetime is written once, by the packet's constructor from pkt_lifespan();
     # nobody else re-writes it (a lifetime adjusted later from other traffic - the last sync countdown, say - depends on history)
     r3.instances += 1
